@@ -58,7 +58,11 @@ func Generate(rng *rand.Rand, i int, thorough bool) *p2prig.Scenario {
 	case "forbidden":
 		ns := p2prig.NodeSpec{Kind: "forbidden", MaxAccepts: 12, MaxLive: []int{1, 1, 0}[rng.Intn(3)]}
 		// position of the forbidden header within the batch: first / middle / last / alone / before its parent
-		switch rng.Intn(5) {
+		pos := rng.Intn(5)
+		if i%15 == 0 {
+			pos = 4
+		}
+		switch pos {
 		case 4: // delivered before its parent: pushed unsolicited, hanging off a block the service does not have
 			ns.OrphanForbidden = true
 			ns.ChildFirst = rng.Intn(2) == 0 // its child first, alone; then the forbidden header followed by that child
@@ -86,6 +90,16 @@ func Generate(rng *rand.Rand, i int, thorough bool) *p2prig.Scenario {
 					break
 				}
 			}
+		}
+		// the offender speaks like a real node: before anything else it sends a message with a command the service has no
+		// type for (experimental engine; the default engine's peer treats an unreadable message as malformed and hangs up)
+		if s.Engine == "exp" && (i/3)%2 == 0 {
+			ns.UnknownFirst = true
+		}
+		// the offender is no full node (it does not advertise NODE_NETWORK, so it is never synced from or asked) and pushes
+		// its headers message as soon as the handshake is done
+		if s.Engine == "legacy" && ns.OrphanForbidden && (i/3)%2 == 0 {
+			ns.NotFullNode, ns.PushOnHandshake = true, true
 		}
 		// the forbidden node must not contradict a checkpoint below the forbidden header (it follows the honest chain up to there)
 		if s.Engine == "legacy" {
@@ -121,6 +135,9 @@ func Generate(rng *rand.Rand, i int, thorough bool) *p2prig.Scenario {
 			s.InitialStore = "prefix"
 			s.PrefixLen = int(at) + 1 + rng.Intn(s.HonestLen-int(at)-5)
 			bad.ForkLen = s.PrefixLen - int(at) + 4
+		}
+		if s.Engine == "exp" && (i/3)%2 == 1 {
+			bad.UnknownFirst = true
 		}
 		s.Nodes = append(s.Nodes, bad)
 		if s.Engine == "legacy" && rng.Intn(3) == 0 {
@@ -169,6 +186,12 @@ func classify(s *p2prig.Scenario) string {
 		case n.Kind == "forbidden":
 			k += "(middle)"
 		}
+		if n.UnknownFirst {
+			k += "(unknown-command-first)"
+		}
+		if n.NotFullNode {
+			k += "(not-a-full-node,speaks-first)"
+		}
 		ks = append(ks, k)
 	}
 	ban := ""
@@ -179,7 +202,7 @@ func classify(s *p2prig.Scenario) string {
 }
 
 func body(r *ev.Run) {
-	r.Rule("scenarios = seeded draws over engine {legacy, experimental} x {a node whose chain carries a header on the forbidden list at position first/middle/last/alone of its batch; a node whose chain differs from a checkpoint at a checkpoint height; a single honest node serving a sync across 2..4 checkpoints, its answers ending at the stop hash or carrying all it has (a checkpoint header in the middle of a message, several checkpoints in one message)} x checkpoint lists of 0..4 checkpoints at arbitrary heights x 1-2 misbehaving + 1-2 honest nodes x ban duration {1 h, 1 ms}. Misbehaving nodes are the only reachable ones first (so they are asked), then the honest ones open. Oracles: forbidden hash never in the table nor served (404); its sender's connection closed at quiescence; with a 1 h ban no later connection of that host is sent a getheaders, with a 1 ms ban a later connection is admitted; descendants only ORPHAN; re-offence: a host with two connections is banned, the 3 s ban elapses with no attempt of that host, its second connection delivers the forbidden header again and a newcomer of the host must be refused (judged within 1.5 s of the second offence); after a checkpoint mismatch the connection is closed and no further getheaders was sent on it; every request stops at the first checkpoint above what has been delivered, and at zero (or an announced block) after the last; afterwards the service converges on the honest chain (C06 oracle). distinct = structural classes; non-trivial = all.")
+	r.Rule("scenarios = seeded draws over engine {legacy, experimental} x {a node whose chain carries a header on the forbidden list at position first/middle/last/alone of its batch; a node whose chain differs from a checkpoint at a checkpoint height; offenders that first send a message with an unknown command (experimental engine) or that are no full nodes and push their headers right after the handshake (default engine); a single honest node serving a sync across 2..4 checkpoints, its answers ending at the stop hash or carrying all it has (a checkpoint header in the middle of a message, several checkpoints in one message)} x checkpoint lists of 0..4 checkpoints at arbitrary heights x 1-2 misbehaving + 1-2 honest nodes x ban duration {1 h, 1 ms}. Misbehaving nodes are the only reachable ones first (so they are asked), then the honest ones open. Oracles: forbidden hash never in the table nor served (404); its sender's connection closed at quiescence; with a 1 h ban no later connection of that host is sent a getheaders, with a 1 ms ban a later connection is admitted; descendants only ORPHAN; re-offence: a host with two connections is banned, the 3 s ban elapses with no attempt of that host, its second connection delivers the forbidden header again and a newcomer of the host must be refused (judged within 1.5 s of the second offence); after a checkpoint mismatch the connection is closed and no further getheaders was sent on it; every request stops at the first checkpoint above what has been delivered, and at zero (or an announced block) after the last; afterwards the service converges on the honest chain (C06 oracle). distinct = structural classes; non-trivial = all.")
 	r.Assume("the forbidden hash is harness-chosen and appended to the network parameters before the services are built", "contradicting blocks are lighter than honest ones", "experimental engine: peers are attached one after the other (single-outbound-peer design); it disconnects but does not ban", "ban observed by effect at the scripted node")
 	r.Require("forbidden_header_delivered", 3)
 	r.Require("reoffend_newcomer_refused", 2)
